@@ -93,8 +93,9 @@ def prepare(tier):
 
 def replay(r):
     qs = ['0 (1 add ?(10 ?lt))*', '0 (1 add ?(3 ?lt), 1 add ?(3 ?lt))*', '0 (1 add 3 mod)*', '0 (1 add 3 mod)+', '(0, 1) (1 add 3 mod)*',
-          '0 (drop 0)*', '0 (drop 0)+', '5 (drop 1, drop 2)+']
-    exp = [10, 3, 3, 3, 6, 1, 1, 2]
+          '0 (drop 0)*', '0 (drop 0)+', '5 (drop 1, drop 2)+', '1 (2 mul [0, 1] elem add ?(16 ?lt))*', '1 (2 mul [0, 1] elem add ?(16 ?lt))+',
+          '(0, 1) (1 add 3 mod)+', '(0, 3) (1 add ?(6 ?lt))+', '0 ((1 add, 2 add) 5 mod)*', '0 ((1 add 5 mod)?)*', '0 ()*', '7 (drop 7)*']
+    exp = [10, 3, 3, 3, 6, 1, 1, 2, 15, 14, 6, 7, 5, 5, 1, 1]
     res = vlib.zw_queries(qs, OUT)
     bad = ['`%s` yields %s results, expected %d' % (q, c, e) for q, (c, t), e in zip(qs, res, exp) if c != e]
     return {'reproduced': bool(bad), 'violations_on_real_library': bad, 'queries': len(qs)}
